@@ -411,6 +411,17 @@ func runC09(c *kit.Ctx) {
 		kit.Instrs(markU, func(in ssa.Instruction) {
 			if r, ok := in.(*ssa.Return); ok {
 				v := kit.Strip(kit.Res(r, 0))
+				if kc, isC := v.(*ssa.Const); isC && mkStore != nil {
+					// early-return form: return true after creating, return false where nothing was created
+					isTrue := kc.Value != nil && kc.Value.ExactString() == "true"
+					if isTrue && !(mkStore.Block() == r.Block() || mkStore.Block().Dominates(r.Block())) {
+						okRet = false
+					}
+					if !isTrue && kit.Reaches(mkStore, r) {
+						okRet = false
+					}
+					return
+				}
 				ph, isPhi := v.(*ssa.Phi)
 				if !isPhi {
 					okRet = false
